@@ -5,11 +5,11 @@ Line protocol for C19.  Rationals are `n` or `n/d`; a 3-vector is `a,b,c`; lists
 
 * `c19.round q;q;…`                       → `i,i,…`                       (`roundHalfEven`)
 * `c19.vox pitch | lo | hi | u | pts`     → `shape=a,b,c|off=…|units=…|ix=i,j,k;…|filled=i,j,k;…|counts=i,j,k,n;…`
-                                             `|written=OK/ERR|sum=n|inside=n|inb=n|cover=0/1|insideB=0/1`
+                                             `|vcells=i,j,k;…|sum=n|inside=n|inb=n|cover=0/1|insideB=0/1`
 * `c19.check pitch | lo | hi | u | pts | F` → `cover=0/1 inside=0/1`  (the proved checkers on navis' own voxel list `F`)
 * `c19.tan id,parent,x,y,z;…`             → `px,py,pz,vx,vy,vz,len2;…` or `ERR:KeyError`
 * `c19.kclip n k`                         → `min n k`
-* `c19.alpha s1 s2 s3`                    → rational, or `NaN` when the sum is zero
+* `c19.alpha s1 s2 s3`                    → rational (`0` when the sum is not positive)
 -/
 namespace Navis.Drv.C19
 open Navis.Voxel Navis.Proto
@@ -67,7 +67,7 @@ def runVox (g : Grid) (pts : List P3) : String :=
   s!"|ix={";".intercalate ((pts.map (voxIx g)).map showI3)}" ++
   s!"|filled={";".intercalate (F.map showI3)}" ++
   s!"|counts={";".intercalate (cs.map fun e => s!"{showI3 e.1},{e.2}")}" ++
-  s!"|written={if (countsAsWritten g pts).isSome then "OK" else "ERR"}" ++
+  s!"|vcells={";".intercalate ((vectorCells g pts).map showI3)}" ++
   s!"|sum={gridSum cs}|inside={nInside g pts}|inb={(pts.filter (inBounds g)).length}" ++
   s!"|cover={b01 (coversB g pts F)}|insideB={b01 (insideB g F)}"
 
@@ -102,7 +102,7 @@ def run (cmd : String) (rest : String) : Option String :=
   | "alpha" => match words rest with
     | [a, b, c] => do
       let a ← parseRat a; let b ← parseRat b; let c ← parseRat c
-      if a + b + c = 0 then pure "NaN" else pure (showRat (alpha a b c))
+      pure (showRat (alpha a b c))
     | _ => none
   | _ => none
 
